@@ -17,7 +17,7 @@
       coordinate make the computed test `> 0.25` false on every triple
       ([BezierIEEEScalar.far32_false]).
    4. [within_ieee]: D <= a*4^d + 16(n-1)u/3 with a + 16(n-1)u/3 <= 5/16
-      gives [within32 d]; with (n-1)*2^E <= 2^19 one has (n-1)u <= 2^-5 (+ 2^-131),
+      gives [within32 d]; with (n-1)*2^E <= 2^19 one has (n-1)u <= 2^-6 (+ 2^-131),
       a = 1/8 works and D_0 <= 4*2^E <= 2^20 <= 4^19/8: depth 19, the pinned
       fuel 2^20 ([T01g_ieee_bounded]). *)
 From RM Require Import Model.ControlPoints Model.Curve Proofs.BezierTermination Proofs.DeCasteljau
@@ -122,10 +122,10 @@ Section Triangle.
   Hypothesis HE : (0 <= E <= 126)%Z.
 
   (* error of one computed midpoint *)
-  Definition uE : R := bp (E - 24) + bp (-150).
+  Definition uE : R := bp (E - 25) + bp (-150).
 
   Lemma uE_pos : 0 < uE.
-  Proof. unfold uE. pose proof (bpow_gt_0 radix2 (E - 24)). pose proof (bpow_gt_0 radix2 (-150)). lra. Qed.
+  Proof. unfold uE. pose proof (bpow_gt_0 radix2 (E - 25)). pose proof (bpow_gt_0 radix2 (-150)). lra. Qed.
 
   (* x is a covered coordinate within e of the real r *)
   Definition near (e : R) (x : F32) (r : R) : Prop := coord_ok E x /\ Rabs (B2R x - r) <= e.
@@ -361,13 +361,13 @@ End Triangle.
 
 (* ---------- the constants ---------- *)
 
-(* (n - 1) * 2^E <= 2^19: (n - 1) * u <= 2^-5 + 2^-131 *)
+(* (n - 1) * 2^E <= 2^19: (n - 1) * u <= 2^-6 + 2^-131 *)
 Lemma noise_bound E n : (0 <= E)%Z -> (Z.of_nat n * 2 ^ E <= 2 ^ 19)%Z ->
-  INR n * uE E <= bp (-5) + bp (-131).
+  INR n * uE E <= bp (-6) + bp (-131).
 Proof.
   intros HE HK. unfold uE. rewrite Rmult_plus_distr_l. apply Rplus_le_compat.
-  - replace (E - 24)%Z with (E + -24)%Z by ring. rewrite bpow_plus, <- Rmult_assoc.
-    replace (bp (-5)) with (bp 19 * bp (-24)) by (rewrite <- bpow_plus; reflexivity).
+  - replace (E - 25)%Z with (E + -25)%Z by ring. rewrite bpow_plus, <- Rmult_assoc.
+    replace (bp (-6)) with (bp 19 * bp (-25)) by (rewrite <- bpow_plus; reflexivity).
     apply Rmult_le_compat_r; [apply bpow_ge_0|].
     rewrite INR_IZR_INZ, <- (IZR_Zpower radix2 E HE), <- (IZR_Zpower radix2 19) by lia.
     rewrite <- mult_IZR. apply IZR_le. exact HK.
@@ -399,8 +399,8 @@ Proof.
   assert (HE' : (0 <= E <= 126)%Z) by lia.
   replace (length points - 1)%nat with (Nat.pred (length points)) in HK by lia.
   pose proof (noise_bound E _ HE HK) as HN.
-  assert (Hsmall : bp (-5) + bp (-131) <= 9 / 256).
-  { replace (bp (-5)) with (8 / 256) by (cbn; lra).
+  assert (Hsmall : bp (-6) + bp (-131) <= 9 / 256).
+  { replace (bp (-6)) with (4 / 256) by (cbn; lra).
     assert (bp (-131) <= bp (-8)) by (apply bpow_le; lia).
     replace (bp (-8)) with (1 / 256) in H by (cbn; lra). lra. }
   assert (Hnn : 0 <= INR (Nat.pred (length points)) * uE E)
